@@ -100,11 +100,31 @@ DoSet(tx, op) == CASE op.f = "lt" -> Ok([tx EXCEPT !.lt = op.v])
                    [] op.f = "ver" -> Ok([tx EXCEPT !.ver = op.v])
                    [] op.f = "seq" -> IF op.idx >= Len(tx.ins) THEN Ok(tx) ELSE Ok([tx EXCEPT !.ins[op.idx + 1].seq = op.v])
 
+\* 64-bit unsigned comparison / subtraction on little-endian 8-byte values
+Leq64(a, b) == LET df == {i \in 1..8 : a[i] # b[i]} IN df = {} \/ (LET k == CHOOSE i \in df : \A j \in df : j <= i IN a[k] < b[k])
+Sub64(a, b) == FoldLeft(LAMBDA acc, i : LET d == a[i] - b[i] - acc.c IN [c |-> IF d < 0 THEN 1 ELSE 0, v |-> Append(acc.v, (d + 256) % 256)],
+                        [c |-> 0, v |-> <<>>], Idx(8)).v
+\* the same computation when amounts do not fit the integer model of FeeMath: sums and the remainder are 64-bit
+\* values (Go uint64), the fee depends on sizes only
+DoChangeBig(tx, op, d) ==
+    LET in == Sum64([k \in 1..Len(tx.ins) |-> tx.ins[k].sats])
+        out == Sum64([k \in 1..Len(tx.outs) |-> tx.outs[k].sats])
+        b0 == LET b == ToB(tx) IN [ins |-> [k \in 1..Len(b.ins) |-> [b.ins[k] EXCEPT !.sats = 0]], outs |-> [k \in 1..Len(b.outs) |-> [b.outs[k] EXCEPT !.sats = 0]]]
+    IN IF d.kind = "existing" /\ d.idx \notin 1..Len(tx.outs) THEN Err(tx)
+       ELSE IF ~Leq64(out, in) THEN Err(tx)
+       ELSE IF ~ParseExact(Ser(tx, FALSE)).ok THEN [res |-> "fatal", tx |-> tx]
+       ELSE IF ~Estimable(b0) THEN Err(tx)
+       ELSE LET avail == Sub64(in, out)
+                fees == LE64(ChangeFees(b0, op.q, d))
+            IN IF Leq64(avail, fees) \/ Leq64(Sub64(avail, fees), LE64(Dust)) THEN Ok(tx)
+               ELSE IF d.kind = "new" THEN Ok(AddOut(tx, Sub64(avail, fees), op.ls))
+               ELSE Ok([tx EXCEPT !.outs[d.idx].sats = Add64(@, Sub64(avail, fees))])
+
 \* Change(script, quote) / ChangeToExistingOutput(index, quote): module FeeMath decides
 DoChange(tx, op) ==
     LET d == IF op.k = "change" THEN [kind |-> "new", slen |-> Len(op.ls), data |-> IsDataHead(op.ls), idx |-> 0]
              ELSE [kind |-> "existing", slen |-> 0, data |-> FALSE, idx |-> op.idx + 1]
-    IN IF ~AllSmall(tx) THEN [res |-> "unmodelled", tx |-> tx]
+    IN IF ~AllSmall(tx) THEN DoChangeBig(tx, op, d)
        ELSE IF d.kind = "existing" /\ d.idx \notin 1..Len(tx.outs) THEN Err(tx)
        ELSE LET b == ToB(tx)  r == ChangeAlg(b, op.q, d) IN
             IF SumIn(b) < SumOut(b) THEN Err(tx)
@@ -118,7 +138,7 @@ DoChange(tx, op) ==
 \* FillAllInputs with the P2PKH unlocker: inputs in order; stops at the first input whose spent
 \* script is not a P2PKH (inscription) template, keeping the unlocking scripts already inserted.
 \* op.us[k] is the unlocking script produced for input k (any script of the right shape).
-Signable(ps) == IsP2PKHT(ps) \/ IsInscriptionT(ps)
+Signable(ps) == IsP2PKHT(ps) \/ LibInscription(ps)     \* ScriptType() pubkeyhash / pubkeyhashinscription, as the library tests it
 SigShape(us, pk) == WellFormed(us) /\ LET t == Tokenize(us) IN
                     /\ Len(t) = 2 /\ IsDataPush(t[1].op) /\ IsDataPush(t[2].op)
                     /\ t[2].data = pk
